@@ -1,0 +1,31 @@
+//go:build verif
+
+// Contracts for govc (contract-based deductive verification, /verif). Comment-only file:
+// it is compiled only under the build tag "verif" and contains no code.
+
+package bfe_tls
+
+//@ func removePadding
+//@   props C43
+//@   arith bv
+//@   nopanic
+//@   requires len(payload) <= 18432
+//@   let n := len(payload)
+//@   let p := int(payload[n-1])
+//@   let valid := n >= 1 && p+1 <= n && (forall k int :: 0 <= k && k <= p ==> payload[n-1-k] == byte(p))
+//@   ensures[accept_valid] valid ==> result1 == 255 && len(result0) == n-(p+1)
+//@   ensures[reject_invalid] !valid ==> result1 == 0
+//@   ensures[prefix] sameptr(result0, payload) && len(result0) <= n
+//@   loop 1 invariant[range] 0 <= i && i <= toCheck && toCheck <= 256 && toCheck <= n && n >= 1 && paddingLen == payload[n-1]
+//@   loop 1 invariant[good] (good == 255) <==> (p+1 <= n && (forall k int :: 0 <= k && k < i && k <= p ==> payload[n-1-k] == paddingLen))
+
+//@ func removePaddingSSL30
+//@   props C43
+//@   arith bv
+//@   nopanic
+//@   requires len(payload) <= 18432
+//@   let n := len(payload)
+//@   let p := int(payload[n-1])
+//@   ensures[accept] n >= 1 && p+1 <= n ==> result1 == 255 && len(result0) == n-(p+1)
+//@   ensures[reject] !(n >= 1 && p+1 <= n) ==> result1 == 0 && len(result0) == n
+//@   ensures[prefix] sameptr(result0, payload)
